@@ -157,3 +157,22 @@ Print Assumptions C05_timeout_reports_failed.
 Print Assumptions C05_flush_error_reports_failed.
 Print Assumptions C05_close_reports_failed.
 Print Assumptions C05_alloc_failure_retries.
+
+(* ---- lifted to networks (package K): after the NConnect that establishes a connection the first wantlist either end
+   hands to it is a full one (the fault clauses are vacuous under Net.v's atomic delivery and stay client-level). *)
+From BS Require Import Types Wantlist Wantlist_proofs2 Client Client_proofs Client_proofs4 Net Net_proofs Net_proofs6 Net_props Net_proofs2 Net_proofs5 Net_proofs21 Net_proofs40 Net_proofs41 Net_proofs42 Net_proofs43 Net_proofs44 Net_proofs45 Net_proofs46 Net_proofs47 Server Net_props4.
+From Coq Require Import ZArith Lia.
+Open Scope N_scope.
+
+Theorem C05_net_first_is_full :
+  forall (Sz : N) (Hh : hash_fn) (n : nat) (ops1 : list nop) (a b : N) (ops2 : list nop) 
+    (i j : N) (m : wmsg) (rest : list wmsg),
+  let s1 := fst (nrun Sz Hh (net_init n) ops1) in
+  let s2 := fst (nstep Sz Hh s1 (NConnect a b)) in
+  i = a /\ j = b \/ i = b /\ j = a ->
+  Net.connected s1 a b = false ->
+  Net.connected s2 a b = true ->
+  filter (fun m0 : wmsg => wm_dst m0 =? j) (wsent_run Sz Hh s2 ops2 i) = m :: rest -> wm_full m = true.
+Proof. exact (@Net_props4.C05_net_first_is_full). Qed.
+
+Print Assumptions C05_net_first_is_full.
